@@ -169,7 +169,8 @@ method<Key, R(A...), Policy>::ambiguous_handler(""",
     ("M15", "C07", INC + "policies/vptr_vector.hpp",
      "        vptrs.resize(size);\n",
      "        if (vptrs.size() < size) vptrs.resize(size);\n",
-     "vptrs vector never shrinks"),
+     "vptrs vector never shrinks (EQUIVALENT: stale entries are only "
+     "reachable through ids that are no longer registered)"),
     ("M16", "C08", INC + "detail/compiler.hpp",
      """                rtc.transitive_bases.insert(
                     rtc.transitive_bases.end(), rtb->transitive_bases.begin(),
@@ -311,6 +312,7 @@ template<typename MethodArgList>""",
 
 # M22 and M25 are placeholders kept out of the run
 SKIP = {"M22", "M25"}
+EQUIVALENT = {"M15"}
 
 
 def main():
